@@ -33,7 +33,7 @@ func (*prop) Rule() string {
 		"(ID(\"path.Name\"), ID(TypeName), generic instantiation strings with nested arguments, PkgExpose, ID(go/types composite mixing packages), Sprintf %T), each rendered separately through one SnippetWriter + tracker. " +
 		"Oracles: after every render LocalNameOf(p) is unchanged for every package seen so far; the selector qualifiers of each rendered reference (parsed with go/parser) equal Imports()[path] of the packages the harness put there, target-package references unqualified; " +
 		"at the end Imports() keys == exactly the non-target packages referenced, values pairwise distinct identifiers (not keywords, not _); and the Go type checker accepts `import (name \"path\" ...)` + `var Ci <rendered>` and resolves every Ci to the intended type (types.Identical), with no unused import. " +
-		"pipeline level: see C01/C11 runs (generated files are type-checked by go vet). Non-trivial = the path set contains at least one clash (two paths with the same last segment, a keyword/digit/punctuation segment or a std twin); distinct by hash of the ordered path list + reference kinds."
+		"pipeline level: 24 (quick) / 384 (thorough) real Execute runs with a scripted generator that references 2-9 std / fake third-party / module-local packages per type through ID, PkgExpose and %T; the import block of each written file (parsed with go/parser) must list exactly the referenced foreign packages under distinct valid names, every qualifier must be bound and every name used, and `go build ./...` must succeed. Non-trivial = the path set contains at least one clash (two paths with the same last segment, a keyword/digit/punctuation segment or a std twin); distinct by hash of the ordered path list + reference kinds."
 }
 func (*prop) Assumptions() []string {
 	return []string{
@@ -128,6 +128,13 @@ func (*prop) Cases(seed int64, tier string) []core.Case {
 		cs = append(cs, core.MkCase("path-sets", caseParams{n}))
 	}
 	cs = append(cs, core.MkCase("curated", nil))
+	np, pn := 8, 3
+	if tier == "thorough" {
+		np, pn = 32, 12
+	}
+	for i := 0; i < np; i++ {
+		cs = append(cs, core.MkCase("pipeline", caseParams{pn}))
+	}
 	return cs
 }
 
@@ -449,6 +456,8 @@ func (p *prop) Run(c core.Case, w *core.Worker) core.Result {
 				res.Sample(map[string]any{"paths": sc.Paths, "first_refs": key(scenario{Refs: sc.Refs[:min(3, len(sc.Refs))]})}, 1)
 			}
 		}
+	case "pipeline":
+		p.runPipeline(c, w, &res)
 	case "curated":
 		named := func(p string) refSpec {
 			return refSpec{"id-string", &typgen.Expr{Kind: "named", Path: p, Name: "T"}}
